@@ -96,6 +96,7 @@ def m_read_config(ex, st, c):
 
 def case(prog, params):
     ex = H.new_executor(prog, max_block_visits=300, solver_timeout_ms=300000)
+    ex.fork_read_until = 4      # trims of lines with a few symbolic bytes fork on the trimmed range (concrete offsets afterwards)
     ex.models = registry() + ex.models; ex.model_cache = {}
     cons = []
     st, expected, sy, var, ovar = build(params, cons)
